@@ -6,15 +6,17 @@ import BU.Driver.Digest
 import BU.Driver.Taproot
 import BU.Driver.Keys
 import BU.Driver.Heap
+import BU.Driver.HD
 /-! Compiled driver (`lean_exe budriver`): one request per line on stdin, one answer per line on
 stdout.  Imports Model/Spec/Crypto only — never `BU.Gen.*`, never Mathlib. -/
 open Driver
 
-def allOps : List (String × (Model.Tables → R String)) := wireOps ++ timelockOps ++ blockOps ++ digestOps ++ taprootOps ++ keyOps ++ keyOps2
+def allOps : List (String × (Model.Tables → R String)) := wireOps ++ timelockOps ++ blockOps ++ digestOps ++ taprootOps ++ keyOps ++ keyOps2 ++ hdSpecOps
 
 structure St where
   tables : Model.Tables := default
   hst : HSt := {}
+  hd : HDSt := []
 deriving Inhabited
 
 def handle (S : St) (line : String) : St × String :=
@@ -26,6 +28,14 @@ def handle (S : St) (line : String) : St × String :=
       match (tables.run args) with
       | .ok (t, _) => ({ S with tables := t }, "ok")
       | .error e => (S, "bad-args " ++ e)
+    else if op.startsWith "m:hd_" then
+      match hdOps.lookup (op.drop 2).toString with
+      | none => (S, "bad-op")
+      | some f =>
+        match (f S.hd).run args with
+        | .ok ((hd, out), []) => ({ S with hd := hd }, out)
+        | .ok (_, _) => (S, "bad-args trailing")
+        | .error e => (S, "bad-args " ++ e)
     else if op.startsWith "m:h_" then
       match heapOps.lookup (op.drop 2).toString with
       | none => (S, "bad-op")
